@@ -3,7 +3,7 @@
    All are statements about C13/Model.v over the constants and tables of
    gen/Shorten.v, which is regenerated from _sphere.py on every run. *)
 From Coq Require Import ZArith List Bool.
-From Verif Require Import gen.Shorten C13.Model C13.Bits C13.Block C13.Stream.
+From Verif Require Import gen.Shorten C13.Model C13.Bits C13.Block C13.Stream C13.Total C13.Matrix C13.Extras C13.WordReader.
 Import ListNotations.
 Open Scope Z_scope.
 
@@ -70,3 +70,86 @@ Theorem bad_version_error : forall dt vb body,
   shn_decode dt (c_MAGIC ++ vb :: body) = Err EIO.
 Proof. exact bad_version_l. Qed.
 Print Assumptions bad_version_error.
+
+(* the valid choices spelled out (16-bit and narrower sample types that are not
+   mu-law codes): every block has the size in force, every sample fits 16 bits and
+   is a multiple of 2^bitshift, FN_BLOCKSIZE only between rounds and not above the
+   header's block size, bit shifts below 32, residual widths >= 0, DIFF orders 0-3,
+   FN_ZERO for all-zero blocks, LPC orders up to maxnlpc with coefficients of total
+   magnitude <= 2^14 in blocks no shorter than the history.  The encoder accepts
+   every such script - so decode_encode is about all of them - and none of the
+   decoder's int32 computations leaves its range (the model would answer EUnspec) *)
+Theorem encode_total : forall pad p its,
+  valid_params p = true -> mem (p_ftype p) g_au_types = false ->
+  valid_items p (p_bs p) 0 O its ->
+  exists bytes, shn_encode pad p its = Some bytes.
+Proof. exact encode_total_l. Qed.
+Print Assumptions encode_total.
+
+Theorem decode_encode_valid : forall dt pad p its,
+  valid_params p = true -> mem (p_ftype p) g_au_types = false ->
+  valid_items p (p_bs p) 0 O its ->
+  exists bytes, shn_encode pad p its = Some bytes
+                /\ shn_decode dt bytes = Ok (expected dt p its).
+Proof. exact decode_encode_valid_l. Qed.
+Print Assumptions decode_encode_valid.
+
+(* from a multi-channel signal and per-round choices: the decoded array is the
+   signal, channels interleaved sample by sample *)
+Theorem decode_encode_signal : forall dt pad p rs chans,
+  valid_params p = true -> mem (p_ftype p) g_au_types = false ->
+  chans <> [] -> Z.of_nat (length chans) = p_nchan p ->
+  Forall (fun r => length (r_blocks r) = length chans) rs ->
+  Forall (fun ch => length ch = total_len (p_bs p) rs) chans ->
+  valid_items p (p_bs p) 0 O (script_of (p_bs p) rs chans) ->
+  exists bytes,
+    shn_encode pad p (script_of (p_bs p) rs chans) = Some bytes
+    /\ shn_decode dt bytes
+       = Ok (map (out_item dt (hdr_of p)) (interleave (total_len (p_bs p) rs) chans)).
+Proof. exact decode_encode_signal_valid_l. Qed.
+Print Assumptions decode_encode_signal.
+
+Theorem output_cast_exact : forall dt p v,
+  mem (p_ftype p) g_au_types = false ->
+  (dt = DT_I32 \/ (dt = DT_I16 /\ -32768 <= v < 32768)) ->
+  out_item dt (hdr_of p) v = v.
+Proof. exact out_item_exact_l. Qed.
+Print Assumptions output_cast_exact.
+
+(* mu-law (TYPE_AU1, TYPE_AU2): every byte has a code at every bit shift 0..12, and
+   fix_bitshift maps the code back to the byte (exhaustive over the generated table) *)
+Theorem au_unfix_total : forall ftype b u,
+  ftype = c_TYPE_AU1 \/ ftype = c_TYPE_AU2 -> 0 <= b < 13 -> 0 <= u < 256 ->
+  exists v, unfix_sample ftype b u = Some v /\ fix_sample ftype b v = Some u /\ -129 <= v <= 127.
+Proof. exact au_unfix_total_l. Qed.
+Print Assumptions au_unfix_total.
+
+(* the polynomial predictors: DIFFk stores the k-th finite difference *)
+Theorem diff_residual_is_finite_difference : forall co v b0 b1 b2 rest,
+  let buf := b0 :: b1 :: b2 :: rest in
+  v - pred_diff c_FN_DIFF0 co buf = v - co
+  /\ v - pred_diff c_FN_DIFF1 co buf = delta1 v b0
+  /\ v - pred_diff c_FN_DIFF2 co buf = delta2 v b0 b1
+  /\ v - pred_diff c_FN_DIFF3 co buf = delta3 v b0 b1 b2.
+Proof. exact diff_is_finite_difference. Qed.
+Print Assumptions diff_residual_is_finite_difference.
+
+(* the word-level reader of the source (gbuffer, nbitget, signed big-endian words,
+   mask table) against the bit-list reader all other theorems are about: from any
+   reader state, uvar_get returns the same value, leaves the same bits, and raises
+   IOError exactly when the bits run out *)
+Theorem uvar_get_w_refines : forall nbin w,
+  0 <= nbin -> 0 <= w_n w <= 32 ->
+  match uvar_get nbin (abs_w w) with
+  | Ok (v, rest) => exists w', uvar_get_w nbin w = Ok (v, w') /\ abs_w w' = rest /\ 0 <= w_n w' <= 32
+  | Err _ => uvar_get_w nbin w = Err EIO
+  end.
+Proof. exact uvar_get_w_refines_l. Qed.
+Print Assumptions uvar_get_w_refines.
+
+(* and the state before the first call (gbuffer = nbitget = 0, all words unread)
+   stands for the bit list the decoder model starts from *)
+Theorem word_reader_initial_state : forall bytes,
+  Forall byte_ok bytes -> abs_w (mkW 0 0 (words_of bytes)) = words_bits bytes.
+Proof. exact initial_state_l. Qed.
+Print Assumptions word_reader_initial_state.
